@@ -116,6 +116,15 @@ def parse_step(neighbor):
         commit(ps)
 
 
+class HarnessDrift(Exception):
+    """the statements of Peer this check runs could not be located in the current source"""
+
+
+class _Stub:
+    def __getattr__(self, name):
+        return lambda *a, **k: None
+
+
 def mk_peer(neighbor, established):
     p = object.__new__(Peer)
     p.neighbor = neighbor
@@ -124,36 +133,81 @@ def mk_peer(neighbor, established):
     p._teardown = None
     p._restart = True
     p._restarted = False
-    p._delay = type('D', (), {'reset': staticmethod(lambda: None)})()
+    p._delay = _Stub()
+    p.fsm_runner = _Stub()
+    p.proto = None
+    p.stats = {}
     return p
 
 
+_BLOCKS = {}
+
+
+def _peer_blocks():
+    """The statements of the REAL Peer._main which deal with a reload, cut out of the current source and compiled as they are:
+      'session-start' : from `previous = ...` to `self.neighbor.previous = None` ("Initialize RIB with previous routes")
+      'loop-top'      : the `if self._neighbor:` statement at the top of the message loop ("Handle configuration reload")
+    They run with `self` bound to the check's Peer and the globals of exabgp.reactor.peer.peer."""
+    if _BLOCKS:
+        return _BLOCKS
+    import ast
+    import inspect
+    import textwrap
+    fn = ast.parse(textwrap.dedent(inspect.getsource(Peer._main))).body[0]
+
+    def assigns(node, name):
+        return isinstance(node, ast.Assign) and any(isinstance(t, ast.Name) and t.id == name for t in node.targets)
+
+    def is_test_neighbor(node):
+        return isinstance(node, ast.If) and isinstance(node.test, ast.Attribute) and node.test.attr == '_neighbor'
+
+    body = fn.body
+    first = [i for i, n in enumerate(body) if assigns(n, 'previous')]
+    if not first:
+        raise HarnessDrift('Peer._main: no `previous = ...` statement at function level')
+    i = first[0]
+    j = i
+    while j < len(body) and not (isinstance(body[j], ast.Assign) and isinstance(body[j].targets[0], ast.Attribute) and body[j].targets[0].attr == 'previous'):
+        j += 1
+    if j >= len(body) or j - i > 6:
+        raise HarnessDrift('Peer._main: `self.neighbor.previous = None` does not follow `previous = ...`')
+    start_stmts = body[i:j + 1]
+    loop = None
+    for node in ast.walk(fn):
+        if isinstance(node, ast.While):
+            for st in node.body:
+                if is_test_neighbor(st):
+                    loop = st
+                    break
+        if loop is not None:
+            break
+    if loop is None:
+        raise HarnessDrift('Peer._main: no `if self._neighbor:` at the top of the message loop')
+    for name, stmts in (('session-start', start_stmts), ('loop-top', [loop])):
+        mod = ast.Module(body=[ast.FunctionDef(name='block', args=ast.arguments(posonlyargs=[], args=[ast.arg(arg='self')], kwonlyargs=[], kw_defaults=[], defaults=[]),
+                                               body=stmts, decorator_list=[], type_params=[])], type_ignores=[])
+        ast.fix_missing_locations(mod)
+        ns = {}
+        exec(compile(mod, '<Peer._main:%s>' % name, 'exec'), vars(peermod), ns)
+        _BLOCKS[name] = ns['block']
+    return _BLOCKS
+
+
 def main_session_start(peer):
-    """Peer._main, 'Initialize RIB with previous routes'"""
-    previous = peer.neighbor.previous.routes if peer.neighbor.previous else []
-    current = peer.neighbor.routes
-    peer.neighbor.rib.outgoing.replace_restart(previous, current)
-    peer.neighbor.previous = None
+    """Peer._main, 'Initialize RIB with previous routes' - the real statements"""
+    _peer_blocks()['session-start'](peer)
 
 
 def main_loop_top(peer):
-    """Peer._main, 'Handle configuration reload' at the top of every loop iteration"""
-    if peer._neighbor:
-        previous = peer._neighbor.previous.routes if peer._neighbor.previous else []
-        current = peer._neighbor.routes
-        peer.neighbor.rib.outgoing.replace_reload(previous, current)
-        peer._neighbor.previous = None
-        peer._neighbor = None
+    """Peer._main, 'Handle configuration reload' at the top of every loop iteration - the real statement"""
+    _peer_blocks()['loop-top'](peer)
 
 
 def session_lost(peer, tx, table):
-    """Peer._reset for a restarting peer"""
+    """the real Peer._reset of a restarting peer (the transport is already gone: proto is None)"""
     tx.abandon()
     table.session_reset()
-    peer.neighbor.reset_rib()
-    if peer._neighbor:
-        peer.neighbor = peer._neighbor
-        peer._neighbor = None
+    Peer._reset(peer, 'session lost')
     peer.fsm.state = FSM.IDLE
 
 
